@@ -17,7 +17,7 @@
     Refuted (one witness history per finding class): [c11_refuted_*]. *)
 From Coq Require Import String Ascii List Bool Arith ZArith.
 From Raven Require Import Base.GoStr Base.Like Model.Pattern Model.Names Spec.Names Spec.NamesEval
-  Proof.LikeFacts Proof.NamesUpdates Proof.NamesParents Proof.NamesDb.
+  Proof.LikeFacts Proof.NamesUpdates Proof.NamesParents Proof.NamesDb Proof.NamesArgs.
 Import ListNotations.
 
 (** SQLite LIKE: the pattern [p%] matches every string that starts with the bytes of [p] *)
@@ -96,6 +96,17 @@ Theorem c11_db_delete_refines_partial : forall (st : store) (n : str),
   (let '(bs, r) := db_delete (boxes st) n in (with_boxes st bs, r)) = spec_delete st n.
 Proof. exact db_delete_refines. Qed.
 Print Assumptions c11_db_delete_refines_partial.
+
+(** the command-line layer, per argument: for every astring (atom or quoted) whose
+    decoded name has no double quote and no backslash, the server-side unquoting
+    (Trim of CREATE/DELETE/RENAME/SELECT/APPEND; ParseQuotedString of STATUS/LIST/LSUB
+    = the quote stripping of SUBSCRIBE/UNSUBSCRIBE) yields exactly the name the client wrote.
+    (Names with white space are split earlier by strings.Fields: class quoted_space.) *)
+Theorem c11_unquote_is_decode_partial : forall raw n : str,
+  decode_astring raw = Some n -> no_q n = true ->
+  trim raw [dq] = n /\ unquote1 raw = n.
+Proof. exact unquote_is_decode. Qed.
+Print Assumptions c11_unquote_is_decode_partial.
 
 (** ---- refutations: raven leaves the property in every listed class ---- *)
 Theorem c11_refuted_like_underscore : exists h c, valid_cmd c = true /\ classify (state_after h) c = Some K_like_wildcard /\ refines_at (state_after h) c = false.
